@@ -101,6 +101,22 @@ def run(rep, tier, seed):
             if (res[2 * i] != d or res[2 * i + 1] != m) and len(rep.broken) < 5:
                 rep.broken.append('correspondence C18: %r strict=%r model (%r, %r) implementation (%r, %r)'
                                   % (s, strict, res[2 * i], res[2 * i + 1], d, m))
+    # letters whose case folding is not their lower-casing (sharp s, final sigma, long s, ligatures): both tokenizers must
+    # use the same notion of "ignoring case" (str.lower)
+    FT = [('Straße-1.0', [], False), ('gauss', [], False), ('Groß-exception', [], True), ('ﬁle-lic', [], False), ('mit', [], False)]
+    Lf = make_licensing(FT)
+    fwords = ['Straße-1.0', 'STRASSE-1.0', 'strasse-1.0', 'STRAßE-1.0', 'gauss', 'gauß', 'GAUSS', 'Groß-exception', 'GROSS-EXCEPTION',
+              'groß-exception', 'ﬁle-lic', 'file-lic', 'FILE-LIC', 'ſtraße-1.0', 'mit', 'zz']
+    for w1 in fwords:
+        for tmpl in ('%s', 'mit and %s', 'mit with %s', '%s with Groß-exception', '(%s) or zz'):
+            s = tmpl % w1
+            for strict in (False, True):
+                err, d, m = check_text(Lf, s, strict)
+                rep.case(('fold', s, strict), nontrivial=True, sample={'table': FT, 'text': s, 'outcome': d[:2]} if w1 == 'gauß' and tmpl == '%s' else None)
+                rep.count('case_fold_letters')
+                if err:
+                    rep.violations.append({'key': 'differs', 'kind': 'text', 'table': FT, 'text': s, 'strict': strict,
+                                           'what': 'simple and default tokenizers disagree: ' + err})
     # generated single-word tables and soups of isolated words
     n = 4000 if tier == 'thorough' else 500
     for i in range(n):
